@@ -264,6 +264,7 @@ class Scheduler:
         self.pre_cap = 400000
         self.idle_steps = 0
         self.lib_prefix = None
+        self.on_abort = None
         self.pollers = set()     # threads whose last timed wait expired and that have only done
         #                          non-blocking checks since (a polling loop between two polls)
         main = _TState(0, main_name)
@@ -405,6 +406,8 @@ class Scheduler:
         return chosen
 
     def _deliver_abort(self, me, exc):
+        if not self.aborted and self.on_abort is not None:
+            self.on_abort()           # the instant at which a real process would hang (state of the disk then)
         self.aborted = True
         self.abort = exc
         return self.main
